@@ -48,6 +48,14 @@ def obligations(tier):
                              flags=["--no-unwinding-assertions"], backend="cadical", no_std=["--pointer-overflow-check", "--signed-overflow-check", "--undefined-shift-check"],
                              encodes=["ABTI_pool_get_%s_def" % kn, "pool_" + opname], bounds="2 queued units; spin loops cut after 3 iterations by an unwinding ASSUMPTION (a spinning caller never proceeds)",
                              symbolic="pool context flags"))
+    RCUT = ["thread_queue_acquire_spinlock_if_not_empty.0", "thread_queue_acquire_spinlock_if_not_empty.1", "ABTD_spinlock_acquire.0", "ABTD_spinlock_acquire.1"]
+    for kind, kn in [(0, "fifo"), (2, "randws")]:
+        for op, opname in [(1, "pop"), (3, "pop_many"), (5, "pop_wait")]:
+            o.append(Obl("race_%s_%s" % (kn, opname), "C07/poolrace.c", "real %s of a shared %s pool, instruction by instruction; at every atomic access (unlocked emptiness test, lock word) peers may drain the queue (net effect of their complete pops, while the lock is free): the pool lock is free on return on EVERY path, every unit is in exactly one place, nothing handed out twice, queue invariant holds" % (opname, kn),
+                         defs=["KIND=%d" % (0 if kind == 0 else 1), "OP=%d" % op, "ENV_MODEL", "ENV_BUDGET=1"], unwind=5, cut_loops=RCUT, object_bits=10, backend="cadical",
+                         no_std=["--pointer-overflow-check", "--signed-overflow-check", "--undefined-shift-check"], timeout=300,
+                         encodes=["pool_pop_shared", "pool_pop_many_shared", "pool_pop_wait", "thread_queue_acquire_spinlock_if_not_empty", "thread_queue_pop_head"],
+                         bounds="queue of 0..2 units, one drain by peers at a solver-chosen atomic access; spin loops cut by assumption (a peer holding the lock finishes)", symbolic="initial length, placement of the peers' drain, clock"))
     return o
 
 MANIFEST_ENTRY = {
